@@ -11,8 +11,8 @@ Notation "x * y" := (mul N x y). Notation "x / y" := (div N x y).
 Definition nmax (a b : T) : T := if ltb N a b then b else a.      (* Python max(a, b): b if b > a else a *)
 Definition nmin (a b : T) : T := if ltb N b a then b else a.      (* Python min(a, b): b if b < a else a *)
 
-(* geometry.py:164-196 *)
-Definition distance_to_segment (x0 y0 x1 y1 x2 y2 : T) : T :=
+(* geometry.py distance_to_segment, body for a chord of positive length *)
+Definition distance_to_segment_nd (x0 y0 x1 y1 x2 y2 : T) : T :=
   let l := sqrt N ((x2 - x1) * (x2 - x1) + (y2 - y1) * (y2 - y1)) in
   let psn := ((x0 - x1) * (x2 - x1) + (y0 - y1) * (y2 - y1)) / l in
   let X := nmax x1 x2 in let Y := nmax y1 y2 in
@@ -22,6 +22,13 @@ Definition distance_to_segment (x0 y0 x1 y1 x2 y2 : T) : T :=
   let xproj := nmin (nmax xproj x) X in
   let yproj := nmin (nmax yproj y) Y in
   sqrt N ((x0 - xproj) * (x0 - xproj) + (y0 - yproj) * (y0 - yproj)).
+
+(* "if l == 0: distance to the point" - the degenerate chord of a closed loop (repair recorded under C16;
+   before it the division by l raised ZeroDivisionError) *)
+Definition distance_to_segment (x0 y0 x1 y1 x2 y2 : T) : T :=
+  let l := sqrt N ((x2 - x1) * (x2 - x1) + (y2 - y1) * (y2 - y1)) in
+  if eqb N l (zero N) then sqrt N ((x0 - x1) * (x0 - x1) + (y0 - y1) * (y0 - y1))
+  else distance_to_segment_nd x0 y0 x1 y1 x2 y2.
 
 Definition pt := (T * T)%type.
 Definition dseg (p a b : pt) : T := distance_to_segment (fst p) (snd p) (fst a) (snd a) (fst b) (snd b).
